@@ -969,6 +969,24 @@ func checkC04(c *Ctx) {
 	checkTermSpecsOpt(c, "C04.lib", "pkg/sys", sp, false)
 	// the one declaration the compiler adds by itself (mirrored in the expected tables of (b))
 	if f := c.LoadFC("fc"); f != nil {
+		// (z) the agreement rules compare the checked-in files with what the REVIEWED emitters produce from the
+		// sources (declaration shapes, emission order, inserted helpers, temporaries).  If an emitter changed, whether
+		// every checked-in generated file is what the NEW emitters produce — i.e. whether everything was regenerated
+		// after the change — is exactly what only running fc shows; the honest verdict is undecided.
+		checkRelevantReviewedFormsWith(c, f, "C04.z", "the output buffer or are declared in the emitter modules (the emitters, whose output rules (b)-(h) model)", primSet("buf.Write", "buf.New", "buf.String"), 60,
+			func(fn *ir.Func) string {
+				if fn.Decl == nil {
+					return ""
+				}
+				switch filepath.Base(f.M.Fset.Position(fn.Decl.Pos()).Filename) {
+				case "gen_expr_to_go.go", "gen_stmt_to_go.go":
+					return "declared in an emitter module"
+				}
+				if strings.HasSuffix(fn.Name, "ToGo") {
+					return "an emitter by name"
+				}
+				return ""
+			})
 		have := handWrittenDigests(f)
 		// (h) stands on the counter: its two hand-written functions are the reviewed ones
 		for _, name := range []string{"uniqueTmpVarName", "resetUniqueTmpCounter"} {
